@@ -5,6 +5,7 @@
 #define _GNU_SOURCE
 #include "e1_rt.h"
 #include "parsec/utils/mca_param.h"
+#include "parsec/remote_dep.h"
 #include <mpi.h>
 #include <stdio.h>
 #include <stdlib.h>
@@ -117,6 +118,28 @@ void vf_e1_mark(int kind, int a, int b) {
     if (i < 65536) { marks[i].kind = kind; marks[i].a = a; marks[i].b = b; marks[i].stamp = vf_e1_stamp(); }
 }
 
+/* ---------- activation events (hook pair in remote_dep_mpi.c) ---------- */
+typedef struct { int32_t kind, peer, root, cid; uint32_t tpid; int32_t l[4]; uint64_t mask, stamp; char cls[24]; } vf_ev_t;
+#define MAXEV (1 << 18)
+static vf_ev_t *evs; static volatile int nev = 0;
+#if defined(PARSEC_VERIF)
+static void ev_cb(int kind, const void *ptr, int64_t a, int64_t b) {
+    (void)b;
+    if (kind != PARSEC_VERIF_EV_ACT_SEND && kind != PARSEC_VERIF_EV_ACT_RECV) return;
+    const remote_dep_wire_activate_t *m = (const remote_dep_wire_activate_t *)ptr;
+    int i = __sync_fetch_and_add(&nev, 1);
+    if (i >= MAXEV) return;
+    vf_ev_t *e = &evs[i];
+    e->kind = kind; e->peer = (int)a; e->root = (int)m->root; e->cid = m->task_class_id; e->tpid = m->taskpool_id; e->mask = (uint64_t)m->output_mask;
+    for (int k = 0; k < 4; k++) e->l[k] = m->locals[k].value;
+    e->cls[0] = 0;
+    parsec_taskpool_t *tp = parsec_taskpool_lookup(m->taskpool_id);
+    if (tp && tp->task_classes_array && m->task_class_id < tp->nb_task_classes && tp->task_classes_array[m->task_class_id])
+        snprintf(e->cls, sizeof e->cls, "%s", tp->task_classes_array[m->task_class_id]->name);
+    e->stamp = vf_e1_stamp();
+}
+#endif
+
 /* ---------- collection ---------- */
 static uint32_t c_rank_of_key(parsec_data_collection_t *d, parsec_data_key_t key) { (void)d; return (uint32_t)owner[(int)key % vf_nk]; }
 static uint32_t c_rank_of(parsec_data_collection_t *d, ...) { va_list ap; va_start(ap, d); int k = va_arg(ap, int); va_end(ap); return c_rank_of_key(d, (parsec_data_key_t)k); }
@@ -174,6 +197,9 @@ static void dump(void) {
     }
     int nm = nmarks < 65536 ? nmarks : 65536;
     for (int i = 0; i < nm; i++) fprintf(f, "M %d %d %d %llu\n", marks[i].kind, marks[i].a, marks[i].b, (unsigned long long)marks[i].stamp);
+    int ne = nev < MAXEV ? nev : MAXEV;
+    for (int i = 0; i < ne; i++) fprintf(f, "E %d %d %d %d %u %s %d %d %d %d %llu %llu\n", evs[i].kind, evs[i].peer, evs[i].root, evs[i].cid, evs[i].tpid,
+                                         evs[i].cls[0] ? evs[i].cls : "?", evs[i].l[0], evs[i].l[1], evs[i].l[2], evs[i].l[3], (unsigned long long)evs[i].mask, (unsigned long long)evs[i].stamp);
     fprintf(f, "END %llu\n", (unsigned long long)n);
     fclose(f);
 }
@@ -224,6 +250,10 @@ int main(int argc, char **argv) {
     store = (int64_t *)calloc((size_t)vf_nk * vf_ts, sizeof(int64_t));
     dts = (parsec_data_t **)calloc(vf_nk, sizeof(parsec_data_t *));
     itab = calloc(ITAB, sizeof(*itab));
+    evs = calloc(MAXEV, sizeof(vf_ev_t));
+#if defined(PARSEC_VERIF)
+    if (atoi(arg(argc, argv, "--events", "0"))) parsec_verif_event_cb = ev_cb;
+#endif
     for (int k = 0; k < vf_nk; k++) vf_e1_write(&store[(size_t)k * vf_ts], 5000 + k);
 
     int pargc = 0; char **pargv = NULL;
